@@ -9,7 +9,7 @@ import subprocess
 import sys
 
 PKG = {"app": "internal/app", "dcs": "internal/dcs", "mysql": "internal/mysql", "gtids": "internal/mysql/gtids",
-       "optimization": "internal/app/optimization", "app_dcs": "internal/app/dcs", "dcs_test": "internal/app/dcs", "resetup": "internal/app/resetup", "util": "internal/util"}
+       "optimization": "internal/app/optimization", "app_dcs": "internal/app/dcs", "dcs_test": "internal/app/dcs", "resetup": "internal/app/resetup", "util": "internal/util", "nodestate": "internal/app/node_state", "node_state": "internal/app/node_state"}
 WT = "/tmp/confirm-wt"
 ENV = dict(os.environ, GOFLAGS="-mod=mod", GOPROXY="off", GOTOOLCHAIN="auto")
 
